@@ -647,3 +647,17 @@ impl<T> DataReaderEntity<T> {
         )
     }
 }
+
+#[cfg(dust_dds_verif)]
+impl InstanceState {
+    /// Verification hook: read-only view of the private life-cycle fields
+    /// (view state, instance state, disposed generation count, no-writers generation count).
+    pub fn verif_fields(&self) -> (ViewStateKind, InstanceStateKind, i32, i32) {
+        (
+            self.view_state,
+            self.instance_state,
+            self.most_recent_disposed_generation_count,
+            self.most_recent_no_writers_generation_count,
+        )
+    }
+}
